@@ -18,7 +18,7 @@ FIELD_NAMES = [b"X-Foo", b"Accept", b"x-lower", b"X_Under", b"Content-Type", b"U
 FIELD_VALUES = [b"a", b"text/plain", b"x y", b"\xe9t\xe9", b"a, b", b"", b"1", b"w/\"etag\"", b"a\tb", b"v=1; q=0.5"]
 
 MUT_REQLINE = ["target_bad_ipv6", "target_odd_chars", "lead_crlf", "lead_ws", "method_lower", "version_other", "version_absent", "reqline_extra_sp",
-               "reqline_tab", "reqline_trailing_ws", "reqline_bare_lf", "reqline_bare_cr"]
+               "reqline_tab", "reqline_trailing_ws", "reqline_bare_lf", "reqline_bare_cr", "reqline_tail_lf", "reqline_tail_cr"]
 SEPARATORS = [b"(", b")", b",", b"/", b":", b";", b"<", b"=", b">", b"?", b"@", b"[", b"\\", b"]", b"{", b"}", b'"']
 MUT_HEADER = ["name_separator", "hdr_bare_lf_term", "hdr_bare_cr_term", "hdr_lf_in_value", "hdr_cr_in_value", "head_end_lflf",
               "head_end_crlflf", "ws_before_colon", "name_space", "name_empty", "name_paren", "no_colon_line",
@@ -28,7 +28,7 @@ MUT_CL = ["dup_cl_same", "dup_cl_diff", "cl_list_same", "cl_list_diff", "cl_plus
           "cl_huge", "cl_leading_zeros", "cl_underscore_alias", "cl_nbsp"]
 MUT_TE = ["te_case", "te_pad", "te_cl_both", "te_gzip", "te_identity", "te_gzip_chunked", "te_chunked_gzip",
           "te_chunked_chunked", "te_two_fields", "te_vt", "te_xchunked", "te_empty_elem_lead", "te_empty_elem_trail",
-          "te_param", "te_on_10", "te_on_10_keepalive", "te_underscore_alias", "te_on_versionless"]
+          "te_param", "te_on_10", "te_on_10_keepalive", "te_underscore_alias", "te_on_versionless", "te_empty_with_cl"]
 MUT_CHUNK = ["csize_junk_then_ext", "csize_bws_then_ext", "csize_leading_crlf", "csize_empty", "csize_plus", "csize_0x", "csize_ws_before", "csize_ws_after", "csize_bare_lf",
              "csize_nonascii", "csize_huge", "csize_upper", "csize_leading_zeros", "csize_underscore", "csize_vt",
              "cext_valid_token", "cext_valid_noval", "cext_valid_quoted", "cext_semicolon_only", "cext_no_name",
@@ -38,7 +38,7 @@ MUT_CHUNK = ["csize_junk_then_ext", "csize_bws_then_ext", "csize_leading_crlf", 
              "trailer_obs_fold", "trailer_end_lf", "trailer_ctl", "trailer_separator_in_name", "cext_separator_in_name"]
 ALL_MUTATIONS = MUT_REQLINE + MUT_HEADER + MUT_CL + MUT_TE + MUT_CHUNK
 
-STRICT_REJECT = set("""hdr_bare_lf_term hdr_bare_cr_term hdr_lf_in_value hdr_cr_in_value head_end_lflf head_end_crlflf
+STRICT_REJECT = set("""reqline_tail_lf reqline_tail_cr hdr_bare_lf_term hdr_bare_cr_term hdr_lf_in_value hdr_cr_in_value head_end_lflf head_end_crlflf
  ws_before_colon name_space name_empty name_paren dup_cl_same dup_cl_diff cl_list_same cl_list_diff cl_plus cl_minus
  cl_hex cl_underscore cl_comma_sep cl_inner_ws cl_nonascii_digit cl_empty cl_float cl_vt cl_huge cl_nbsp
  te_gzip te_identity te_gzip_chunked te_chunked_gzip te_chunked_chunked te_two_fields te_vt te_xchunked
@@ -190,6 +190,10 @@ def apply_mutation(m, label, W):
     elif label == "reqline_trailing_ws":
         ov["reqline_tail"] = W.choice([b" ", b"\t"])
         V = either(dontcare=("version",))
+    elif label in ("reqline_tail_lf", "reqline_tail_cr"):
+        # a bare LF / CR between the request line and its CRLF: a peer that takes LF as a line end sees the
+        # header section end right there
+        ov["reqline_tail"] = b"\n" if label == "reqline_tail_lf" else b"\r"
     elif label == "reqline_bare_lf":
         ov["reqline_term"] = b"\n"
         V = either(dontcare=("method", "target", "fields", "version"))
@@ -300,6 +304,14 @@ def apply_mutation(m, label, W):
             # Content_Length is not Content-Length: it must be dropped and must not frame anything
             fields.insert(1, (b"Content_Length", b"%d" % (n + 7)))
     # ---------------------------------------------------- Transfer-Encoding
+    elif label == "te_empty_with_cl":
+        # a Transfer-Encoding field that lists no coding at all next to a Content-Length: if the message is
+        # processed (framed by its Content-Length), RFC 9112 6.1 still wants the connection closed after it
+        if m["version"] != "1.1":
+            m["version"] = "1.1"
+        ensure_cl()
+        fields.insert(1, (b"Transfer-Encoding", W.choice([b"", b",", b" , ", b",,"])))
+        V = either(must_close=True, dontcare=("fields",))
     elif label.startswith("te_"):
         if label in ("te_on_10", "te_on_10_keepalive", "te_on_versionless"):
             ensure_chunked()
